@@ -50,6 +50,21 @@ Theorem C09_delivery : forall (S : sends) r mode out chunks,
 Proof. exact delivery. Qed.
 Print Assumptions C09_delivery.
 
+(* "merge" characterised: a tagged sequence is an order-preserving interleaving of the
+   senders' lists exactly when all its elements come from the senders and its
+   projection on each sender is that sender's list (what the correspondence checks on
+   every recorded wire). *)
+Theorem C09_merge_char : forall (S : sends) out, NoDup (map fst S) ->
+  (interleave S out <->
+   (forall e, In e out -> In (fst e) (map fst S)) /\
+   (forall k l, In (k, l) S -> proj ep_eqb k out = l)).
+Proof.
+  intros S out Hnd. split.
+  - intros H. split; [exact (interleave_keys S out H) | exact (interleave_proj ep_eqb ep_eqb_eq S out H Hnd)].
+  - intros [H1 H2]. exact (proj_interleave ep_eqb ep_eqb_eq out S Hnd H1 H2).
+Qed.
+Print Assumptions C09_merge_char.
+
 (* Length bound, sending side: NewSegment refuses exactly the payloads above
    65535 bytes and otherwise keeps the payload and its length. *)
 Theorem C09_len : forall ts pid p isresp,
